@@ -616,3 +616,61 @@ fn test_unit_propagate_3() {
 //     let v1 = up.decide(Literal::new(VarLabel::new(3), true));
 //     assert!(v1);
 // }
+
+/// `(watchers of positive literals, watchers of negative literals,
+///   per level: (true vars, false vars, hash, satisfied clauses))`
+#[cfg(feature = "verif_hooks")]
+pub type VerifSolverSnapshot = (
+    Vec<Vec<usize>>,
+    Vec<Vec<usize>>,
+    Vec<(Vec<usize>, Vec<usize>, u128, Vec<usize>)>,
+);
+
+#[cfg(feature = "verif_hooks")]
+impl SATSolver {
+    /// read-only copy of the hidden state (watch lists sorted per literal)
+    pub fn verif_snapshot(&self) -> VerifSolverSnapshot {
+        let sorted = |l: &Vec<Vec<usize>>| -> Vec<Vec<usize>> {
+            l.iter()
+                .map(|w| {
+                    let mut w = w.clone();
+                    w.sort_unstable();
+                    w
+                })
+                .collect()
+        };
+        let stack = self
+            .state_stack
+            .iter()
+            .map(|s| {
+                (
+                    s.model.true_assignments.iter().map(|v| v.value_usize()).collect(),
+                    s.model.false_assignments.iter().map(|v| v.value_usize()).collect(),
+                    s.hash,
+                    s.sat_clauses.iter().collect(),
+                )
+            })
+            .collect();
+        (
+            sorted(&self.up.watch_list_pos),
+            sorted(&self.up.watch_list_neg),
+            stack,
+        )
+    }
+
+    /// an independent copy of the solver in its current state
+    pub fn verif_clone(&self) -> SATSolver {
+        SATSolver {
+            up: self.up.clone(),
+            clauses: self.clauses.clone(),
+            contains_pos_lit: self.contains_pos_lit.clone(),
+            contains_neg_lit: self.contains_neg_lit.clone(),
+            state_stack: self.state_stack.clone(),
+        }
+    }
+
+    /// number of levels on the state stack (2 = no open decision)
+    pub fn verif_depth(&self) -> usize {
+        self.state_stack.len()
+    }
+}
